@@ -275,6 +275,24 @@ theorem superseded_password_no_effect (s : St) (src : Nat) (m : Stun) (pre post 
     cases m.cls <;> decide
   exact (unauthenticated_traffic_no_effect s _ hun).1
 
+/-- **Peer-reflexive learning.**  A Binding request that passed authentication, comes from an address the component has no
+candidate for, and does not conflict with its role, makes the component learn exactly one new remote candidate: that address,
+marked peer-reflexive, with the priority taken from the request's PRIORITY attribute. -/
+theorem peer_reflexive_learned_with_request_priority (s : St) (src : Nat) (m : Stun)
+    (hnew : s.remoteCands.find? (fun c => c.addr == src) = none)
+    (h1 : ¬ (s.controlling = true ∧ (m.roleAttr = .controlling ∨ m.useCandidate = true)))
+    (h2 : ¬ (s.controlling = false ∧ m.roleAttr = .controlled)) :
+    (handleRequest s src m).1.remoteCands = s.remoteCands ++ [{ addr := src, prio := m.priority, prflx := true }] := by
+  unfold handleRequest
+  split
+  · rename_i h; simp at h; exact absurd h (by simpa using h1)
+  split
+  · rename_i h; simp at h; exact absurd h (by simpa using h2)
+  simp only [hnew]
+  rw [completion_remoteCands]
+  repeat' split
+  all_goals simp_all [performCheck, St.addPair]
+
 /-- Retransmissions stop: the seventh firing of the retransmission timer after 7 transmissions fails the pair instead of sending
 again, and a failed pair is not picked up by the check timer (only `waiting` pairs are). -/
 theorem retransmission_gives_up (s : St) (t : Nat) (p : Pair) (hp : s.pairs.find? (fun q => q.tx == some t) = some p)
@@ -504,6 +522,9 @@ example : ((run midNegotiation [.close, .dgram { src := 1, kind := .stun { cls :
 example : ((run (init false) [.addRemote 1 5, .addRemote 2 4]).1.fallback,
     (run (init false) [.addRemote 1 5, .addRemote 2 4, .dgram { src := 2, kind := .nonStun [0x80] }]).1.fallback,
     (run (init false) [.addRemote 1 5, .addRemote 2 4, .dgram { src := 8, kind := .nonStun [0x80] }]).1.fallback) = (some 1, some 2, some 1) := by decide
+-- peer-reflexive learning: hypotheses met by an authenticated request from an unknown address; the PRIORITY attribute is taken over
+example : (react (step (init false) .setRemoteCreds).1 { src := 7, kind := .stun { cls := .request, txid := 9, attrs := [.mi .validLocal], priority := 4242 } }).1.remoteCands
+    = [{ addr := 7, prio := 4242, prflx := true }] := by decide
 -- role conflict hypothesis is met by the honest request of a same-role agent
 example : handleRequest (init true) 1 { cls := .request, txid := 1, attrs := [.mi .validLocal], useCandidate := true, roleAttr := .controlling }
     = (init true, [.roleConflict]) := by decide
